@@ -177,3 +177,41 @@ Proof.
   destruct (check_params_total (ps_params st) (ps_count st) (val l10n)) as [cp Hcp].
   rewrite Hcp. cbn [bind]. eauto.
 Qed.
+
+(* ---- quoting: consequences of the token theorem, stated on check_apostrophes ---------------------- *)
+Theorem apostrophes_clean : forall ts, qtoks_ok ts ->
+  ~ In QApos ts -> ~ adjacent_quotes ts -> check_apostrophes (qrender ts) = Ok [].
+Proof.
+  intros ts H1 H2 H3. rewrite check_apostrophes_tokens by exact H1.
+  rewrite quoting_clean; auto.
+Qed.
+
+Theorem apostrophes_double_quotes : forall pre post, qtoks_ok (pre ++ QQuote :: QQuote :: post) ->
+  exists issues off, check_apostrophes (qrender (pre ++ QQuote :: QQuote :: post)) = Ok issues /\
+    In (lit_issue y_double_quotes off) issues /\ i_error (lit_issue y_double_quotes off) = true.
+Proof.
+  intros pre post H. rewrite check_apostrophes_tokens by exact H.
+  destruct (quoting_double_error _ pre post eq_refl) as [off Ho].
+  exists (quoting_model (pre ++ QQuote :: QQuote :: post)), off. auto.
+Qed.
+
+Theorem apostrophes_bare : forall ts, qtoks_ok ts ->
+  In QApos ts -> (forall ts', ts <> QQuote :: ts') ->
+  exists issues off, check_apostrophes (qrender ts) = Ok issues /\
+    In (lit_issue y_apostrophe off) issues /\ i_error (lit_issue y_apostrophe off) = true.
+Proof.
+  intros ts H1 H2 H3. rewrite check_apostrophes_tokens by exact H1.
+  destruct (quoting_apostrophe_error ts H2) as [off Ho].
+  - destruct (q_hd_quote ts) eqn:E; auto. apply q_hd_quote_true in E.
+    destruct E as [ts' E]. exfalso. eapply H3. exact E.
+  - exists (quoting_model ts), off. auto.
+Qed.
+
+Theorem apostrophes_whole_string : forall mid, qtoks_ok (QQuote :: mid ++ [QQuote]) ->
+  mid <> [] -> ~ In QQuote mid ->
+  exists issues, check_apostrophes (qrender (QQuote :: mid ++ [QQuote])) = Ok issues /\
+                 forall off, ~ In (lit_issue y_apostrophe off) issues.
+Proof.
+  intros mid H1 H2 H3. rewrite check_apostrophes_tokens by exact H1.
+  eexists. split; [reflexivity|]. apply quoting_whole_string; auto.
+Qed.
